@@ -205,7 +205,7 @@ def run(ctx):
     }
 
     # ---------------------------------------------------------------- 1. obligations
-    broken = ctx.lean_obligations(["ExoModel.Props.C15"])
+    broken = ctx.lean_obligations(["ExoModel.Props.C15", "ExoModel.Props.C15Stmt"])
     ctx.extra["broken_obligations"] = broken
 
     if ctx.replay:
